@@ -702,6 +702,10 @@ func (peer *peer) handleUpdate(e *fsmMsg) ([]*table.Path, []bgp.Family, bool) {
 
 				if hasOwnASLoop(localAS, allowOwnAS, aspath, confedID, confedEnabled) {
 					path.SetRejected(true)
+					// The rejected path stays in the Adj-RIB-In only. It still
+					// replaces whatever this peer announced before for the same
+					// NLRI and path-id, so that older path has to leave the Loc-RIB.
+					paths = append(paths, path.Clone(true))
 					continue
 				}
 			}
@@ -719,6 +723,7 @@ func (peer *peer) handleUpdate(e *fsmMsg) ([]*table.Path, []bgp.Family, bool) {
 						slog.String("Data", path.String()))
 
 					path.SetRejected(true)
+					paths = append(paths, path.Clone(true))
 					continue
 				}
 			}
